@@ -29,6 +29,31 @@ def _run(ctx):
     res = lib.vh(ctx, "compose", beh, cacheable=not ctx.replay, timeout=6000)
     r = res["per_property"][pid]
     ctx.extra["worlds_exported"] = n
+    if not ctx.replay:
+        # which exceptions are in effect in a running server (ExceptionsReload.tla, not a listed property)
+        lib.tlc(ctx, "mc_reload", "MC_ExceptionsReload.tla", "MC_ExceptionsReload.cfg", workers=2, timeout=600)
+        for v in ("broken_clears", "no_reload"):
+            bad = lib.tlc(ctx, "mc_reload_bad_" + v, "MC_ExceptionsReload.tla", "MC_ExceptionsReload_bad_%s.cfg" % v, workers=2,
+                          timeout=600, expect_ok=False, count=False)
+            with open(bad["out"], errors="replace") as f:
+                if "Invariant ServedExactly is violated" not in f.read():
+                    raise lib.ToolError("MC_ExceptionsReload_bad_%s.cfg is not rejected by TLC" % v)
+        gen2 = lib.tlc(ctx, "gen_reload", "MC_ExceptionsReload.tla", "Gen_ExceptionsReload.cfg", workers=1, timeout=600, count=False)
+        rows = ctx.path("reload.ndjson")
+        if lib.extract_replays(gen2["out"], rows) == 0:
+            raise lib.ToolError("no histories exported by Gen_ExceptionsReload.cfg")
+        rl = lib.vh(ctx, "reload", rows, out_name="reload", timeout=900)["per_property"][pid]
+        nn = rl.get("notes", {})
+        if nn.get("reload_histories_differing_from_ExceptionsReload", 0) or nn.get("reload_histories_not_run", 0):
+            lib.log("  note: %s of %s reload histories differ from ExceptionsReload.tla, %s could not be run (evidence only, no verdict)"
+                    % (nn.get("reload_histories_differing_from_ExceptionsReload", 0), nn.get("reload_histories", 0),
+                       nn.get("reload_histories_not_run", 0)))
+        r = lib.merge_results(r, rl)
+        ctx.assumptions += [
+            "ExceptionsReload.tla (a running server reloads the exceptions before every run and keeps the last readable version; "
+            "it refuses to start on an unreadable one) is checked by TLC and every history is replayed against a real "
+            "`routinator server` child (file rewritten, SIGUSR1, /json); no listed property: differences are model divergences",
+        ]
     ctx.assumptions += [
         "the input of the composition is *validated* payload: every generated object is valid (C01/C02 cover validation); "
         "the rejected sibling CA is produced by a listed-but-missing object",
